@@ -82,7 +82,7 @@ def cases(tier, seed):
         out.append({"t": "run", "vals": vals, "vars": var, "p": int(rng.integers(1, 6)), "pe": int(rng.integers(1, 4)),
                     "ps": int(rng.integers(1, 4)), "tol": tol, "crit": crit,
                     "ev": "obs" if crit == "variance" or rng.random() < 0.4 else "metric", "dep": crit == "variance" and i % 2 == 0,
-                    "cls": cls, "seed": seed})
+                    "cls": cls, "seed": seed, "start": int(rng.choice([1, 1, 2, 5]))})
     out.append({"t": "ctor", "seed": seed})
     if tier == "thorough":
         for L in range(1, 8):
@@ -125,7 +125,8 @@ def run_case(case, ctx):
         return
     vals, vrs, p, pe, ps, tol, crit = case["vals"], case["vars"], case["p"], case["pe"], case["ps"], case["tol"], case["crit"]
     L = len(vals)
-    epochs = L * pe
+    start = case.get("start", 1)
+    epochs = start - 1 + L * pe  # index of the last epoch; training may resume at a later epoch index
     st = PositiveWaveFunction(2, 1, gpu=False)
     data = torch.tensor([[0.0, 1.0], [1.0, 1.0]], dtype=torch.double)
     calls = {"n": 0}
@@ -165,7 +166,7 @@ def run_case(case, ctx):
     # ---- reference decision procedure, step by step (so that an unspecified 0/0 can follow the library)
     E = []
     decisions = []  # (epoch, 'stop' | 'continue' | 'either')
-    for e in range(1, epochs + 1):
+    for e in range(start, epochs + 1):
         if e % pe == 0:
             E.append((vals[len(E)], vrs[len(E)]))
         if e % ps == 0:
@@ -181,7 +182,7 @@ def run_case(case, ctx):
     exc_tags = dict(tags)
     # does the run meet a zero reference under the relative criterion before any stop?  (for known-finding tagging)
     Esim = []
-    for e in range(1, epochs + 1):
+    for e in range(start, epochs + 1):
         if e % pe == 0:
             Esim.append(vals[len(Esim)])
         if e % ps == 0 and len(Esim) >= p + 1 and crit == "relative" and Esim[-1 - p] == 0:
@@ -189,7 +190,7 @@ def run_case(case, ctx):
     exc_tags["ref_zero"] = ref_zero
     with warnings.catch_warnings():
         warnings.simplefilter("ignore")
-        ctx.lib("fit", st.fit, data, epochs=epochs, pos_batch_size=2, lr=0.01, callbacks=[ev, es, rec], tags=exc_tags,
+        ctx.lib("fit", st.fit, data, epochs=epochs, starting_epoch=start, pos_batch_size=2, lr=0.01, callbacks=[ev, es, rec], tags=exc_tags,
                 exc_tagger=lambda e, tb: {"raised_in": "_relative_change" if "_relative_change" in tb.splitlines()[-3] + tb.splitlines()[-4]
                                           else "elsewhere"})
     ctx.count("fits")
@@ -218,22 +219,23 @@ def run_case(case, ctx):
             reason = None
             if stopped and last is not None:
                 # explain: which comparison would make the library's stop at `last` legitimate?
-                n_at = sum(1 for q in range(1, last + 1) if q % pe == 0)
+                n_at = sum(1 for q in range(start, last + 1) if q % pe == 0)
                 reason = f"stopped at epoch {last} with {n_at} evaluations (patience {p})"
             ctx.violation("stopped-too-early", f"training stopped ({reason}; last_epoch={es.last_epoch}) although the {crit} deviation between an "
                           f"evaluation and the one {p} evaluations earlier was never below {tol}", tags=dict(tags, evals_at_stop_le_patience=bool(
-                              stopped and last is not None and sum(1 for q in range(1, last + 1) if q % pe == 0) <= p)), witness=wit)
+                              stopped and last is not None and sum(1 for q in range(start, last + 1) if q % pe == 0) <= p)), witness=wit)
     else:
         ctx.count("stops_observed")
         if not stopped or last != expect_stop or es.last_epoch != expect_stop:
             if stopped and last is not None and last < expect_stop:
-                n_at = sum(1 for q in range(1, last + 1) if q % pe == 0)
+                n_at = sum(1 for q in range(start, last + 1) if q % pe == 0)
                 ctx.violation("stopped-too-early", f"training stopped at epoch {last} ({n_at} evaluations, patience {p}); the rule is first met at "
                               f"epoch {expect_stop}", tags=dict(tags, evals_at_stop_le_patience=n_at <= p), witness=wit)
             else:
                 ctx.violation("stopped-too-late", f"the rule is first met at epoch {expect_stop}; training ended at epoch {last} "
                               f"(stop_training={stopped}, last_epoch={es.last_epoch})", tags=tags, witness=wit)
-    nev = sum(1 for q in range(1, (last or 0) + 1) if q % pe == 0)
+    nev = sum(1 for q in range(start, (last or 0) + 1) if q % pe == 0)
+    ctx.seen("starting_epochs", start)
     if nev >= p + 1:
         ctx.mark_nontrivial(monitors.digest([vals, vrs if crit == "variance" else 0, p, pe, ps, tol, crit, case["ev"]]))
     ctx.seen("patience", p)
